@@ -113,7 +113,9 @@ func resolverForFile(file protoreflect.FileDescriptor) TypeResolver {
 	// Even with a bespoke resolver, we'll still fall back to global
 	// types to help satisfy extensions and message types inside of
 	// google.protobuf.Any messages (such as error details).
-	return fallbackResolver{dynamicpb.NewTypes(&files), protoregistry.GlobalTypes}
+	// (A pointer, so that the resolver is comparable and can be a map key, as
+	// the TypeResolver contract asks.)
+	return &fallbackResolver{dynamicpb.NewTypes(&files), protoregistry.GlobalTypes}
 }
 
 func addFileRecursive(file protoreflect.FileDescriptor, files *protoregistry.Files) error {
